@@ -5,7 +5,8 @@ cd /repo || exit 2
 if ! git diff --quiet; then echo "repo dirty, abort"; exit 2; fi
 git apply "$PATCH" || { echo "patch does not apply"; exit 2; }
 cp /verif/evidence/$ID.json /tmp/seedtest.$ID.ev 2>/dev/null
+cp /verif/evidence-by-tier/$ID.$TIER.json /tmp/seedtest.$ID.evt 2>/dev/null
 cd /verif && ./check $ID --tier $TIER > /tmp/seedtest.$ID.out 2>&1; rc=$?
-cp /tmp/seedtest.$ID.ev /verif/evidence/$ID.json 2>/dev/null; rm -rf /verif/replays/$ID/viol-*
+cp /tmp/seedtest.$ID.ev /verif/evidence/$ID.json 2>/dev/null; cp /tmp/seedtest.$ID.evt /verif/evidence-by-tier/$ID.$TIER.json 2>/dev/null; rm -rf /verif/replays/$ID/viol-*
 git -C /repo checkout -- . 
 echo "exit=$rc"; grep -c "^VIOLATION" /tmp/seedtest.$ID.out; grep -m3 -A1 "^VIOLATION" /tmp/seedtest.$ID.out; tail -1 /tmp/seedtest.$ID.out
